@@ -337,9 +337,14 @@ def run(tier):
 
 def replay(w):
     m = ModeMachine()
+    impl = None
     try:
-        impl, model = ohist.replay(m, w["init"], w["history"])
-        impl.close()
+        hist = [ohist.deep_tuple(o) if isinstance(o, list) else o for o in w["history"]]
+        impl, model = ohist.replay(m, w["init"], hist[:-1])
+        impl, model = m.step(impl, model, hist[-1])
     except core.Violation as v:
         return v
+    finally:
+        if impl is not None:
+            impl.close()
     return None
